@@ -191,6 +191,24 @@ def constructors(chk):
             chk.ok(rule, name, "accepts only %s; parameters stored under their own names" % ", ".join(need), node=init.node)
 
 
+def ascending_sort(chk, rule, fi, what):
+    """every sorted()/.sort() in fi sorts ascending by the threshold: no reverse, no foreign key"""
+    ok = True
+    n = 0
+    for c in ast.walk(fi.node):
+        if isinstance(c, ast.Call) and (util.dotted(c.func) == "sorted" or (isinstance(c.func, ast.Attribute) and c.func.attr == "sort")):
+            n += 1
+            for kw in c.keywords:
+                if kw.arg == "reverse" and not (isinstance(kw.value, ast.Constant) and not kw.value.value):
+                    chk.bad(rule, fi.qual, "%s are sorted in DESCENDING order (reverse=%s): the range / last-match lookup assumes ascending thresholds, so the wrong entry is selected" % (what, util.unparse(kw.value)), node=c, stmt="sorted-reverse")
+                    ok = False
+                if kw.arg == "key":
+                    txt = util.unparse(kw.value).replace(" ", "")
+                    if txt not in ("lambdapair:pair[0]", "lambdaitem:item[0]", "lambdax:x[0]", "itemgetter(0)", "operator.itemgetter(0)"):
+                        chk.undecided(rule, fi.qual, "%s are sorted with the key %s" % (what, txt), node=c, aux=True)
+    return ok, n
+
+
 def stepwise(chk):
     prog = chk.program
     rule = "O8.4"
@@ -267,7 +285,10 @@ def stepwise(chk):
     if comp is not None:
         src = ast.unparse(comp.node)
         chk.count()
-        if "sorted(" not in src and ".sort(" not in src:
+        asc_ok, _n = ascending_sort(chk, rule, comp, "the rules")
+        if not asc_ok:
+            pass
+        elif "sorted(" not in src and ".sort(" not in src:
             chk.bad(rule, comp.qual, "the rules do not enter the lookup through sorted(): selection depends on declaration order", node=comp.node, stmt="unsorted", aux=True)
         else:
             zips = [n for n in ast.walk(comp.node) if isinstance(n, ast.Call) and util.dotted(n.func) == "zip" and len(n.args) == 3]
@@ -423,7 +444,10 @@ def switch(chk):
     chk.count(3)
     ok2 = True
     slaves_assign = [n for n in ast.walk(init.node) if isinstance(n, ast.Assign) and any(isinstance(t, ast.Attribute) and t.attr == "_slaves" for t in n.targets)]
-    if not slaves_assign or "sorted(" not in ast.unparse(slaves_assign[0].value):
+    asc_ok, _n = ascending_sort(chk, rule, init, "the slaves")
+    if not asc_ok:
+        ok2 = False
+    elif not slaves_assign or "sorted(" not in ast.unparse(slaves_assign[0].value):
         chk.bad(rule, init.qual, "the slaves are not sorted by threshold: 'last match wins' then depends on declaration order", node=slaves_assign[0] if slaves_assign else init.node, stmt="slaves-unsorted")
         ok2 = False
     retarget = [n for n in ast.walk(init.node) if isinstance(n, ast.Assign) and any(isinstance(t, ast.Attribute) and t.attr == "target" and not (isinstance(t.value, ast.Name) and t.value.id == "self") for t in n.targets)]
